@@ -31,6 +31,8 @@ def has_binding(files):
 def report_records(ck, cases, records, pid_note="", template_under_test=False):
     """template_under_test: the compiled source itself is what is being judged (C14: the re-printed text), so a
     fresh creation that differs from the specification is a violation, not a disagreement between two oracles."""
+    disagreements = None
+    ndis = 0
     for rec in records:
         c = cases[rec["case"]]
         ck.evaluations += 1
@@ -58,13 +60,23 @@ def report_records(ck, cases, records, pid_note="", template_under_test=False):
             if p["what"].startswith("ORACLES-DISAGREE") and template_under_test:
                 p = dict(p, what="re-printed template: fresh creation differs from the specification")
             elif p["what"].startswith("ORACLES-DISAGREE") or p["what"].startswith("tool:"):
-                raise vlib.ToolError("oracle disagreement / tool problem: %s\n%s" % (json.dumps(p), semrun.src_text(rec)))
+                # the two oracles disagree with each other: not a verdict about the code under test.  Raised at the end of
+                # the run, unless the run also found violations of its own (a compiler that is wrong at creation makes the
+                # "fresh creation" oracle wrong too; that must not hide what the check is about)
+                if disagreements is None:
+                    disagreements = "oracle disagreement / tool problem: %s\n%s" % (json.dumps(p), semrun.src_text(rec))
+                ndis += 1
+                continue
             ck.report({"sig": p["what"], "src": semrun.src_text(rec), "data": c["data"], "problem": p, "variant": str(rec["variant"]),
                        "family": c.get("family"), "files": c["files"], "tree": c.get("tree"), "steps": c.get("steps")},
                       "%s: %s\n%s\ndata=%s" % (p["what"], json.dumps(p.get("diff") or p.get("msg")), semrun.src_text(rec),
                                                json.dumps(c["data"])[:300]))
         if len(ck.samples) < 3 and has_binding(c["files"]) and rec["variant"] == 1:
             ck.sample({"source": semrun.src_text(rec), "data": c["data"], "expected_tree": c.get("tree")})
+    if disagreements is not None:
+        if not ck.violations:
+            raise vlib.ToolError(disagreements)
+        ck.notes.append("%d cases in which the two oracles disagree with each other were set aside (the run reports violations of its own); first: %s" % (ndis, disagreements[:300]))
 
 
 def run(tier, seed, replay):
